@@ -73,7 +73,13 @@ func c16Config() world.Config {
 func c16Register(env world.Env, who, full string, years int64) mc.CaseResult {
 	w := env.W()
 	k := w.App.RnsKeeper
+	caps := strings.HasSuffix(who, "^") // the registrant signs with the capital spelling of its address
+	who = strings.TrimSuffix(who, "^")
 	acct := w.A(who)
+	creator := acct.Bech
+	if caps {
+		creator = strings.ToUpper(creator)
+	}
 	// the harness' own reading of the name: lower-case, spaces dropped, split at the last dot
 	norm := strings.ReplaceAll(strings.ToLower(full), " ", "")
 	dot := strings.LastIndex(norm, ".")
@@ -87,7 +93,7 @@ func c16Register(env world.Env, who, full string, years int64) mc.CaseResult {
 	pol, _ := jkltypes.GetPOLAccount()
 	rnsMod := modAddr(rnstypes.ModuleName).String()
 	before := w.Balances(ctx)
-	res := env.Deliver(rnstypes.NewMsgRegisterName(acct.Bech, full, years, "{}", false))
+	res := env.Deliver(rnstypes.NewMsgRegisterName(creator, full, years, "{}", false))
 	ctx = env.Ctx()
 	d := world.BalDiff(before, w.Balances(ctx))
 	labels := map[string]string{pol.String(): "POL", rnsMod: "rns-module"}
@@ -103,13 +109,17 @@ func c16Register(env world.Env, who, full string, years int64) mc.CaseResult {
 		default:
 			state = "expired"
 		}
-		if prev.Value == acct.Bech {
+		if pa, perr := sdk.AccAddressFromBech32(prev.Value); prev.Value == acct.Bech || (perr == nil && pa.Equals(acct.Addr)) {
 			state += "-own"
 		} else {
 			state += "-other"
 		}
 	}
 	if !res.OK() {
+		// a renewal of a still-live name by its owner extends it: with a term in the accepted range and the price at hand it goes through
+		if state == "live-own" && years >= 1 && years <= 10 && before[acct.Bech].AmountOf("ujkl").GTE(sdk.NewInt(years).MulRaw(c16Price(len(nm), tld))) {
+			vs = append(vs, viol("owner-renews-a-live-name", "rejected", "%s (owner of live %q, expires %d, height %d, funds %s) could not renew for %d years: %v", who, norm, prev.Expires, height, before[acct.Bech].AmountOf("ujkl"), years, res.Err))
+		}
 		if len(d) != 0 {
 			vs = append(vs, viol("failed-registration-costs-nothing", "moved", "failed registration of %q changed balances %s", full, diffString(w, d, labels)))
 		}
@@ -202,10 +212,14 @@ func c16Enum(thorough bool) mc.Enum {
 	// (c) register twice in a row (renewal of a just-registered name, takeover attempt of a just-registered name)
 	for _, y1 := range []int64{1, 2} {
 		for _, y2 := range []int64{1, 5} {
-			for _, second := range []string{"A", "B"} {
+			for _, second := range []string{"A", "B", "A^", "^A", "^B"} { // ^X: the first registration was signed in capitals; X^: the second
 				y1, y2, second := y1, y2, second
-				e.Cases = append(e.Cases, mc.Case{Desc: fmt.Sprintf("twice|fresh.jkl|%d|%d|%s", y1, y2, second), Run: func(env world.Env) mc.CaseResult {
-					c16Register(env, "A", "fresh.jkl", y1)
+				first := "A"
+				if strings.HasPrefix(second, "^") {
+					first, second = "A^", strings.TrimPrefix(second, "^")
+				}
+				e.Cases = append(e.Cases, mc.Case{Desc: fmt.Sprintf("twice|fresh.jkl|%d|%d|%s then %s", y1, y2, first, second), Run: func(env world.Env) mc.CaseResult {
+					c16Register(env, first, "fresh.jkl", y1)
 					env.NextBlock(6 * time.Second)
 					return c16Register(env, second, "Fresh.jkl", y2)
 				}})
